@@ -1046,7 +1046,8 @@ impl Engine for FuzzEngine {
     }
 
     fn timeout_ms(&self) -> u64 {
-        30_000
+        // generous: a case is one whole sequence (up to ~300 statements) and the machine may be busy
+        120_000
     }
 }
 
